@@ -79,9 +79,9 @@ CLAIMS.update({
 })
 
 CLAIMS.update({
-    "C03": dict(text="Theorems (default alpha, every arity, weights >= 0, any bias): C03_not_tighter (every assignment satisfying all given bounds survives upward+downward, connective and every operand; And, Or, Implies), C03_and_connective_exact / C03_or_connective_exact (both ends of the connective's new interval are attained by feasible assignments: explicit witnesses on the segment between the corners of the operand box), C03_and_infeasible_contradiction (no feasible assignment => crossed bounds at the connective). C03_and_operand_lower_attained / _upper_attained (every end of every operand interval of an n-ary And is attained by an explicit feasible point). Partial (named so): operand-end attainment for Or/Implies (`C03_operands_attained_statement` is stated) and the Implies cases of exactness/infeasibility are checked on the implementation against an independent exact hull oracle; first-order connectives over joined groundings are checked on the implementation with a two-sided per-row oracle.",
+    "C03": dict(text="Theorems (alpha = 1, And and Or of every arity, Implies; weights >= 0, any bias, all operand/operator bounds in [0,1]): C03_not_tighter (every assignment satisfying all given bounds survives upward+downward, connective and every operand), C03_connective_exact (both ends of the connective's new interval are attained by feasible assignments), C03_operands_attained (both ends of the new interval of every positively weighted operand are attained), C03_infeasible_contradiction (no feasible assignment => crossed bounds at the connective). Witnesses are explicit (corners of the operand box and points on segments between corners); Or and Implies follow from And by duality (truth function, upward, downward, aggregation). Not proved: zero-weight operands keep their interval (oracle only). First-order connectives over joined groundings are checked on the implementation with a two-sided per-row oracle; an independent exact interval-arithmetic hull oracle checks every propositional scenario.",
                 design="7/C03", technique="Coq proof (soundness lemmas + explicit segment witnesses instead of an intermediate value theorem) + exact differential correspondence + independent interval-arithmetic hull oracle on the implementation",
-                note=NOTE_TB + " Partial as stated in the claim."),
+                note=NOTE_TB),
 })
 NA_REASON = "check not built yet in this round (planned: see DESIGN.md section 7); not claimed"
 checks, na = [], []
